@@ -16,6 +16,8 @@ enum : uint32_t {
   BM_TAG_MALLOC = 0x203,   // env_log(size) + env_u64: allocator result
   BM_TAG_FREE = 0x204,     // env_log(rep)
   BM_TAG_LOOKUP = 0x205,   // env_log(instance id, which table, index)
+  BM_TAG_CBREG = 0x206,    // env_log(instance id, slot, signature fingerprint) - the backend sees the guest-ABI signature
+  BM_TAG_CBUNREG = 0x207,  // env_log(instance id, slot, signature fingerprint)
 };
 
 class rlbox_bm
@@ -156,11 +158,15 @@ protected:
     auto on_exit = detail::make_scope_exit([&] { cur_sandbox = old; });
     return (*func_ptr)(params...);
   }
+  // a backend that keeps entry points per signature must be told the same (guest-ABI) signature on release as on registration
+  template<typename T> static constexpr uint64_t sz() { if constexpr (std::is_void_v<T>) return 0; else return sizeof(T); }
+  template<typename T_Ret, typename... T_Args> static constexpr uint64_t sig_fingerprint() { return (sz<T_Ret>() << 32) | (sizeof...(T_Args) << 24) | (0 + ... + sz<T_Args>()); }
   template<typename T_Ret, typename... T_Args>
   inline T_PointerType impl_register_callback(void* key, void* interceptor)
   {
     for (uint32_t i = 0; i < NSLOTS; i++) {
       if (cb_keys[i] == nullptr) {
+        env_log(BM_TAG_CBREG, id, i, sig_fingerprint<T_Ret, T_Args...>());
         cb_keys[i] = key;
         cb_interceptors[i] = interceptor;
         return CB_REP_BASE + 16 * i;
@@ -177,6 +183,7 @@ protected:
   {
     for (uint32_t i = 0; i < NSLOTS; i++) {
       if (cb_keys[i] == key) {
+        env_log(BM_TAG_CBUNREG, id, i, sig_fingerprint<T_Ret, T_Args...>());
         cb_keys[i] = nullptr;
         cb_interceptors[i] = nullptr;
         break;
